@@ -102,6 +102,13 @@ func (g *anteG) step() {
 		g.block()
 		g.emit("genesis")
 	}
+	if r.P(1, 60) {
+		// governance empties the price list: the default prices apply again, and nothing else about the parameters changes - the
+		// supported chains stay the supported chains
+		g.emit("setprices -")
+		g.tx("auto", "-", "10000:uusdc", 10000, fmt.Sprintf("record(a1~1~%s~3~=uusdc~=137~%s~%s)", e(fmt.Sprintf("ep%d", g.height)), e(contracts[0]), e(tokens[0])))
+		g.tx("auto", "-", "10000:uusdc", 10000, fmt.Sprintf("record(a1~1~%s~3~=uusdc~=999~%s~%s)", e(fmt.Sprintf("eq%d", g.height)), e(contracts[0]), e(tokens[0])))
+	}
 	if r.P(1, 25) {
 		// governance changes the settlement gas prices in mid-history: later transactions pay the new price
 		g.emit("setprices %s", rng.Pick(r, []string{"setl:0.0003,uusdc:1", "setl:0.00015,uusdc:2", "setl:0.0001,uusdc:1", "setl:0.00025,uusdc:0.5", "uusdc:1,setl:0.0003", "uusdc:2,setl:0.0001", "setl:0.00005,uusdc:1", "setl:0.00001,uusdc:0.00005"}))
